@@ -91,6 +91,11 @@ def _random_stratum(ctx, name, cfg, n, max_atoms, closure_ok=True):
             if tree[0] == "str":
                 tree = tree[1]
         _run_tree(ctx, tree)
+        if name == "main" and rnd.random() < 0.25:
+            for special in (["empty"], ["any"]):
+                for op in ("and", "or"):
+                    _run_tree(ctx, [op, tree, special])
+                    _run_tree(ctx, [op, special, tree])
         if closure_ok and rnd.random() < 0.2 and MW.tree_atoms(tree) <= max_atoms - 2:
             closure.append(tree)
             if len(closure) > 100:
